@@ -9,7 +9,7 @@ Open Scope N_scope.
 Lemma NoDup_app_r : forall A (l1 l2 : list A), NoDup (l1 ++ l2) -> NoDup l2.
 Proof. induction l1 as [|a l1 IH]; intros l2 H; auto. inversion H; subst. apply IH; auto. Qed.
 
-Definition run0 (strf : N -> N -> comp) (rtm : N -> N) (c : cfg) (wm rm : bool) (start : N) (d0 : dir)
+Definition run0 (strf : N -> N -> comp) (rtm : N -> N -> N) (c : cfg) (wm rm : bool) (start : N) (d0 : dir)
   (ops : list rop) : rstate :=
   rot_run strf rtm c (construct strf rtm c wm rm start d0) ops.
 
@@ -19,7 +19,7 @@ Proof. intros. unfold rot_run. apply fold_left_app. Qed.
 
 Section C14.
 Variable strf : N -> N -> comp.
-Variable rtm : N -> N.
+Variable rtm : N -> N -> N.
 Variable c : cfg.
 Hypothesis strf_nonempty : forall k t, strf k t <> [].
 Variables (wm rm : bool) (start : N) (d0 : dir) (ops : list rop).
@@ -121,7 +121,7 @@ End C14.
 
 Section C15.
 Variable strf : N -> N -> comp.
-Variable rtm : N -> N.
+Variable rtm : N -> N -> N.
 Variable c : cfg.
 Hypothesis strf_nonempty : forall k t, strf k t <> [].
 Variables (wm rm : bool) (start : N) (d0 : dir).
@@ -129,7 +129,7 @@ Variable pt : N -> Prop.
 Hypothesis Hover : c_over c = true.
 Hypothesis Hfreq : c_freq c <> FDisabled.
 Hypothesis HNA : NA_ok rtm c start pt.
-Hypothesis HINIT : INIT_ok rtm start pt.
+Hypothesis HINIT : INIT_ok rtm c start pt.
 Hypothesis Hclean : clean c d0.
 Hypothesis Hempty : wm = false -> fs_content (live_path c) d0 = [].
 
@@ -175,7 +175,7 @@ Proof.
   rewrite run_app. unfold rot_run at 1. cbn [fold_left rot_step]. rewrite write_log_eq.
   apply mono_app in M1 as [M1a _].
   destruct (run_tinv strf rtm c strf_nonempty start pt HNA Hover Hfreq ops1 0 s0 s0_inv s0_tinv M1a) as [HIa _].
-  pose proof (pre_write_inv strf rtm c strf_nonempty ts cnt _ HIa) as HI2.
+  pose proof (pre_write_inv strf rtm c strf_nonempty ts (acct c wr cnt) _ HIa) as HI2.
   unfold fs_content. cbn [do_append fs]. rewrite append_get by auto. rewrite path_eqb_refl.
   apply in_or_app. right. left. reflexivity.
 Qed.
@@ -184,7 +184,7 @@ End C15.
 
 Section C15name.
 Variable strf : N -> N -> comp.
-Variable rtm : N -> N.
+Variable rtm : N -> N -> N.
 Variable c : cfg.
 Hypothesis strf_nonempty : forall k t, strf k t <> [].
 Variables (wm rm : bool) (start : N) (d0 : dir).
